@@ -162,7 +162,9 @@ def main(tier):
             continue
         if 'rejected' in r:
             stats['rejected'] += 1
-            run.note(f'rejected by the compiler: {r["rejected"][:160]} :: {sp.pref_sentences[-1].text[:140]}')
+            # the generator writes specifications of the fragment only: a rejection leaves the specification without a program
+            run.violation('rejected/' + sp.pref_sentences[-1].kind, f'a specification of the fragment is rejected by the compiler: {r["rejected"][:200]}',
+                          {'cnl': full_text(sp), 'error': r['rejected']})
             continue
         stats['accepted'] += 1
         run.count(text)
